@@ -46,6 +46,10 @@ type Scenario struct {
 	Faults func(x *Exec, dir string, key int16, conn *Conn) []string
 	// NoTick disables the "tick" deviation (timer beats pending frames).
 	NoTick bool
+	// Slow marks events (by label) of a slow peer: they are ordered AFTER
+	// tick, so in the default schedule the clock wins against them and
+	// delivering one is a deviation.
+	Slow func(label string) bool
 	// Horizon is the virtual-time limit of the explored phase (default 3 min).
 	Horizon time.Duration
 	// MaxPoints caps decision points (default 600).
@@ -930,12 +934,25 @@ func (x *Exec) run() {
 			}
 			continue
 		}
-		labels := make([]string, 0, len(evs)+1)
+		// Default order: fast events, then tick, then the events the scenario
+		// declares slow (a slow broker: by default its frames lose against the
+		// clock, delivering one of them is a deviation).
+		order := make([]event, 0, len(evs)+1)
+		var slow []event
 		for _, e := range evs {
-			labels = append(labels, e.label)
+			if sc.Slow != nil && sc.Slow(e.label) {
+				slow = append(slow, e)
+			} else {
+				order = append(order, e)
+			}
 		}
-		if !sc.NoTick {
-			labels = append(labels, "tick")
+		if !sc.NoTick || len(slow) > 0 {
+			order = append(order, event{label: "tick"})
+		}
+		order = append(order, slow...)
+		labels := make([]string, 0, len(order))
+		for _, e := range order {
+			labels = append(labels, e.label)
 		}
 		choice := 0
 		pi := len(x.res.Points)
@@ -953,10 +970,10 @@ func (x *Exec) run() {
 		x.mu.Unlock()
 		x.Logf("point %d: %s   (of %d: %v)", pi, labels[choice], len(labels), labels)
 		steps++
-		if choice == len(evs) {
+		if order[choice].fire == nil {
 			x.tick(horizon)
 		} else {
-			evs[choice].fire()
+			order[choice].fire()
 		}
 	}
 	x.res.Steps = steps
